@@ -175,4 +175,27 @@ theorem watch_backend_loop_shape :
   repeat' apply And.intro
   all_goals first | rfl | decide
 
+/-- the alias registration sits between the change test and `NewTable`, is called with the aliases parsed from the
+new text, and its result is discarded (an expression statement): the model's `stepOutReg`, whose table part is
+`stepOut` for every registration outcome (`register_outcome_irrelevant`); `NewTable`'s only guard is the change test
+(`watch_backend_loop_shape`). -/
+theorem register_result_discarded :
+    Generated.C01.watchBackendRegister = ["v0 != v1 => call registry.Default.Register(ParseAliases#0)"] := by
+  decide
+
+/-! ### the hand-over from the watchers to the table loop -/
+
+/-- Every text a watcher computes reaches the table loop: no channel send in package `registry/consul` is the
+communication of a `select` clause (a send that could be skipped or lose a race — `select { case ch <- v: default: }`),
+and the channel `WatchServices` / `WatchManual` return is the one the watcher goroutine was started with. This is what
+makes the event sequence of the table loop a `Merge` of the two watchers' sequences (`Props/C01Sys.lean`:
+`system_quiescent`; the negation for the other design: `nonblocking_handover_loses_final_state`). An order of effects
+between goroutines — no sampling of runs establishes it. -/
+theorem watchers_hand_over_every_text :
+    Generated.C01.consulSelectSends = 0 ∧
+    Generated.C01.handOverWatchServicesSameChannel = true ∧
+    Generated.C01.handOverWatchManualSameChannel = true := by
+  repeat' apply And.intro
+  all_goals first | rfl | decide
+
 end Fabio.Props.C01Facts
